@@ -100,7 +100,7 @@ def gen_history_case(rng, ctx, big=0.1, n_ev=(5, 50), saveload=0.06, zero=0.05, 
         for e in events:
             ev2.append(e)
             while rng.random() < 0.45:
-                i = e[1] if e[0] in ("merge", "saveload") else e[0]
+                i = e[1] if e[0] in ("merge", "saveload", "copy", "tmpmerge") else e[0]
                 t = pick(rng, [None, None, 0, 1, int(rng.integers(2, 30)), CAP])
                 ev2.append(["q", i, pick(rng, [1, 2, 3, 10**9]), t])
         events = ev2
@@ -122,7 +122,8 @@ class Run:
         self.hook = hook
         self.on_query = on_query
         self.pr = prober(self.cfg)
-        added = ops.universe_of([e[1] for e in case["events"] if isinstance(e[0], int)])
+        added = ops.universe_of([e[1] for e in case["events"] if isinstance(e[0], int)] +
+                                [o for e in case["events"] if e[0] == "tmpmerge" for o in e[2]])
         self.added_ids = []
         seen = set()
         for k in added:
@@ -178,11 +179,26 @@ class Run:
                 if self.on_query:
                     self.on_query(self, ev[1], ev)
                 continue
+            elif ev[0] == "copy":
+                i = ev[1]
+                if not hasattr(self.real[i], "shm"):
+                    self.real[i] = mon.api(state.duplicate, self.real[i], ev[2])
+                    mon.count("copies:" + ev[2])
+                t = i
+            elif ev[0] == "tmpmerge":
+                i = ev[1]
+                tmp = state.make(self.cfg)
+                tg = Counter()
+                for op in ev[2]:
+                    ops.apply_with_ghost(mon, tmp, op, tg, lambda k: ident(k, self.L))
+                mon.api(self.real[i].merge, tmp)
+                self.ghost[i] = self.ghost[i] + tg
+                del tmp
+                mon.count("temporary_operands_merged")
+                t = i
             else:
                 i, op = ev
-                mon.api(ops.apply_op, self.real[i], op)
-                for k, v in ops.effects(op):
-                    self.ghost[i][ident(k, self.L)] += v
+                ops.apply_with_ghost(mon, self.real[i], op, self.ghost[i], lambda k: ident(k, self.L))
                 mon.count("ops:" + op[0])
                 t = i
             if sum(self.ghost[t].values()) >= CAP:
@@ -239,3 +255,9 @@ def build_zipf(case, mon):
     cells = {k: pr.cells(k) for k in ids}
     pr.cache.clear()
     return real[0], ghost, cells, ids
+
+
+def huge_list_case(rng):
+    fam = [b"ab", b"ab\x00", b"\x00", b"", b"q", b"ab\x00\x00", b"\xff\x00", b"abcdefgh"]
+    return {"type": "history", "cfg": {"kind": "hh", "width": 16, "depth": 2, "max_key_len": pick(rng, [4, 8])}, "n": 1,
+            "events": [[0, ["add", hx(b"ab"), 2]], [0, ["ulist_rep", [hx(k) for k in fam], pick(rng, [65536, 70000])]], [0, ["add", hx(b"q"), 1]]]}
